@@ -18,7 +18,7 @@ where
 {
     let fmt = format!("{}.{}", C::NAME, if compressed { "compressed" } else { "uncompressed" });
     let mut rng = ctx.rng(&format!("c04.{}", fmt));
-    let (cases, pts) = wire_alphabet::<C>(&mut rng, compressed, ctx.quick(), ctx.tier.pick(256, 4096));
+    let (cases, pts) = wire_alphabet::<C>(&mut rng, compressed, ctx.quick(), ctx.tier.pick(256, 20000));
     let c = C::curve();
     let mem = Membership::new(c.clone());
     mem.preload(&pts);
@@ -86,7 +86,7 @@ where
     let c = C::curve();
     let g = C::gen();
     // points: multiples 0..n of the generator (incremental reference addition), both roots for every x, alphabet points
-    let n = ctx.tier.pick(300usize, 2000);
+    let n = ctx.tier.pick(300usize, 10000);
     let mut pts: Vec<Pt<C::K>> = vec![Pt::Inf];
     let mut acc = Pt::Inf;
     for _ in 0..n {
@@ -239,6 +239,6 @@ pub fn run_c05(ctx: &Ctx) -> (&'static str, &'static str) {
     ctx.assume("the reference encoder is written from the format description (big-endian, c1 before c0, flags in the top three bits, sort flag iff y is the lexicographically larger root) and is itself cross-checked against the repository's pinned vector files");
     (
         "exploration",
-        "points: the identity, [k]g and -[k]g for k = 1..300 (quick) / 2000 (thorough) (both roots of every x, so both sort-flag values), alphabet points; each in affine form and as a non-normalised representative, both encodings: fixed length, byte-for-byte equal to the reference ZCash encoder, decode(encode(P)) = P through both decoders; reverse direction on every byte string of the C04 enumeration that the checked decoder accepts and on the four pinned vector files: encode(decode(s)) = s; non-trivial = non-identity point / accepted string",
+        "points: the identity, [k]g and -[k]g for k = 1..300 (quick) / 10000 (thorough) (both roots of every x, so both sort-flag values), alphabet points; each in affine form and as a non-normalised representative, both encodings: fixed length, byte-for-byte equal to the reference ZCash encoder, decode(encode(P)) = P through both decoders; reverse direction on every byte string of the C04 enumeration that the checked decoder accepts and on the four pinned vector files: encode(decode(s)) = s; non-trivial = non-identity point / accepted string",
     )
 }
